@@ -4,7 +4,7 @@ from ..graph import Graph
 from ..expr import access_path, path_str, reaching_defs, norm_cond, origins, leaves, defs_in_node
 from ..linear import linear, relation, fmt
 from ..charclass import byteset, describe
-from .common import strip_casts, short, comparison
+from .common import strip_casts, short, comparison, once_init
 from . import c09
 
 UNITS = []
@@ -245,11 +245,75 @@ def rule_r1_sampling_not_validity(ck, prog, rule='C16.R1'):
                'a test of the sampling field decides whether the header is accepted at all: values such as the debug flag "d" make B3 drop the ids and the sampling decision')
 
 
+
+def rule_r4_view_subscripts(ck, prog, rule='C16.R4', prefix='opentelemetry::trace::propagation::detail::'):
+    """reads of header bytes stay inside the view: every non-constant subscript s[e] of a string_view in the propagation helpers is
+    dominated by an edge whose relation implies e <= s.size() - 1 (a loop guard `i <= s.size()` reads one byte past the end)"""
+    from ..linear import linear, relation, fmt
+    cnt = 0
+    for f in sorted([x for x in prog.funcs.values() if x.qn.startswith(prefix) and x.blocks and not x.d.get('lambda')], key=lambda x: x.key):
+        subs = [n for n in f.nodes if n['k'] == 'call' and n.get('op') == '[]' and n.get('obj') is not None and
+                'string_view' in (f.nodes[n['obj']].get('t') or '') and n.get('args')]
+        if not subs:
+            continue
+        g = Graph(prog, f, inline=None, sync_lambdas=False)
+        rd = reaching_defs(g)
+        for n in subs:
+            cnt += 1
+            p = g.point_of.get((id(g.root_ctx), n['i']))
+            ix = n['args'][0]
+            ixn = strip_casts(f, ix)
+            if ixn['k'] == 'unop' and ixn['op'] in ('++', '--') and ixn.get('postfix', True):
+                ix = ixn['e']      # the value of i++ is the old i
+            ap = access_path(f, n['obj'])
+            size_sym = path_str(ap) + '.size()'
+            lin = linear(g, rd, f, ix, g.root_ctx)
+            import re as _re
+            pretty = lambda t: _re.sub(r'(local|param):(\d+:)?', '', t)
+            site = 'view-subscript-in-bounds:%s[%s]' % (pretty(path_str(ap)), pretty(fmt(lin)) if lin is not None else '?')
+            if p is None or lin is None:
+                ck.inconclusive(rule, f, site, n, 'index expression not linear')
+                continue
+            want = {size_sym: 1, '1': -1}
+            for k_, v_ in lin.items():
+                want[k_] = want.get(k_, 0) - v_
+
+            def implies(a, b, lab):
+                if not lab or not isinstance(lab[0], int):
+                    return False
+                rel = relation(g, rd, lab[1], lab[0], a.ctx, lab[2])
+                if rel and rel[0] == '>=0':
+                    e = dict(rel[1])
+                    diff = dict(want)
+                    for k_, v_ in e.items():
+                        diff[k_] = diff.get(k_, 0) - v_
+                    if all(v_ == 0 for k_, v_ in diff.items() if k_ != '1') and diff.get('1', 0) >= 0:
+                        return True
+                # `size % 2 == 1` (possibly through a named boolean) implies size >= 1: enough for a constant index 0
+                if set(lin) <= {'1'} and lin.get('1', 0) == 0:
+                    core, pol = norm_cond(lab[1], lab[0])
+                    cn = once_init(lab[1], core)
+                    c = comparison(lab[1], cn['i']) if 'i' in cn else None
+                    if c and c[0] == '==' and strip_casts(lab[1], c[2]).get('v') == 1:
+                        m = strip_casts(lab[1], c[1])
+                        if m['k'] == 'binop' and m['op'] == '%' and strip_casts(lab[1], m['rhs']).get('v') == 2:
+                            ml = linear(g, rd, lab[1], m['lhs'], a.ctx)
+                            if ml == {size_sym: 1}:
+                                return (lab[2] if pol else not lab[2]) is True
+                return False
+            ok = g.must_pass_edge(p, implies)
+            ck.verdict(ok, rule, f, site, n, 'index %s is behind a guard that implies it is below %s' % (pretty(fmt(lin)), pretty(size_sym)) if ok else
+                       'the view is read at index %s without a dominating guard that keeps it below %s: a byte past the end of the header value is read (a carrier may hand out views that are not NUL-terminated)' % (pretty(fmt(lin)), pretty(size_sym)))
+    return cnt
+
+
 def run(ck, prog):
     ck.doc('C16.R1', 'sampling field written from IsSampled() only; extractors read exactly the sampled decision; the B3 sampling field never invalidates', 6)
     ck.doc('C16.R2', 'constant-bounded, exactly partitioned header buffers with separators at the documented offsets', 6)
     ck.doc('C16.R3', 'install only valid contexts; B3 single-header precedence; decodes checked or zero-filled', 11)
+    ck.doc('C16.R4', 'every non-constant string_view subscript of the propagation helpers is dominated by a guard implying index < size', 4)
     ck.doc('C09.R3', '(shared rule) bounded subscripts into constant tables (hex lookup)', 10)
+    ck.doc('C09.R7', '(shared rule, see C09) no function-local static of the propagators is modified after, or initialised from the data of, a call', 1)
     with ck.canary('C16.R1'):
         rule_r1(ck, prog, injectors=(('canary::c16::BadInject', None),))
     rule_r1(ck, prog)
@@ -261,4 +325,7 @@ def run(ck, prog):
         ck.holds('C16.R3', prog.function('trace::propagation::detail::HexToBinary'), 'every-decode-result-checked', None, 'no caller ignores the result of HexToBinary')
     rule_r1_sampling_not_validity(ck, prog)
     c09.rule_r3(ck, prog, rule='C09.R3')
+    rule_r4_view_subscripts(ck, prog)
+    if not c09.rule_r7(ck, prog, prefixes=('opentelemetry::trace::propagation::',)):
+        ck.holds('C09.R7', prog.function('trace::propagation::B3PropagatorExtractor::Extract'), 'no-static-locals', None, 'no function-local statics in the B3 / Jaeger propagators')
     return {}
